@@ -131,7 +131,8 @@ PROPS = {
             "infinity flag with a non-zero payload and redundant sign flags are not required to be rejected (point encodings need not be unique); incomplete twisted-Edwards laws: an exceptional case (Z = 0) classifies the point as outside the subgroup"],
     },
     "C18": {
-        "runs": [{"bin": "mon_ser"}, {"bin": "mon_ser", "variant": "rel", "tiers": ["thorough"]}],
+        "runs": [{"bin": "mon_ser"}, {"bin": "mon_ser", "variant": "rel", "tiers": ["thorough"]},
+                 {"bin": "mon_ser", "variant": "miri", "tiers": ["thorough"], "args": ["--miri-slice", "1", "--jobs", "8"]}],
         "assumptions": BASE_ASSUME + [
             "hostile length prefixes, bit flips and uniform bytes run in a re-executed child (RLIMIT_AS 4 GiB, 1 GiB request cap, 20 s watchdog); a dead child is the violation alloc-abort",
             "allocation bound: largest single request <= 64*len(input) + 1 MiB; sequences of zero-sized elements are excluded from hostile-prefix cases (DESIGN §7)"],
